@@ -73,6 +73,13 @@ def setup(fast_poll=True):
     global _setup_done, chunker_module
     if _setup_done:
         return
+    # replicat computes its default config/cache locations at import time: point them into the scratch area so that no
+    # check ever reads or writes the real user's ~/.config/replicat or ~/.cache/replicat
+    xdg = os.path.join(scratch_root(), f'xdg-{os.getpid()}')
+    os.makedirs(os.path.join(xdg, 'config'), exist_ok=True)
+    os.makedirs(os.path.join(xdg, 'cache'), exist_ok=True)
+    os.environ['XDG_CONFIG_HOME'] = os.path.join(xdg, 'config')
+    os.environ['XDG_CACHE_HOME'] = os.path.join(xdg, 'cache')
     if REPO not in sys.path[:1]:
         sys.path.insert(0, REPO)
     from . import chunker_build
